@@ -10,6 +10,16 @@ ENGINE_C = "storesim"
 
 # property -> (engine, category, technique, level text, level note, design ref)
 CLAIMED = {
+    "C03": (ENGINE_A, "exploration",
+            "seeded simulation of single-chain histories with a record of every density evaluation and of every momentum draw (SimMath seam); per-draw membership and consistency oracle",
+            "Seeded search over NUTS presets x maxdepth/mindepth/max_energy_error/target_integration_time/kinetic energy x targets (dimension 0 and 1 included) x histories with natural and injected divergences. Every returned draw must be the start or a fault-free evaluated position of its own trajectory (bitwise), its logp/gradient statistics must be what the density returned there, index 0 iff not moved, depth/steps/index bounds, at least one step, maxdepth flag; for Diag NUTS the first evaluated position of the next trajectory must be the reference-leapfrog image of the draw under the reported scales, step size and the observed momentum.",
+            "The per-leapfrog audit of U-turn decisions of sub-trajectories is not built (no Collector hook): 'stops exactly when' is judged through the depth/steps bounds only. extra_doublings>0 is outside the property's quantifier and not generated.",
+            "DESIGN.md §5 C03"),
+    "C05": (ENGINE_A, "fault_enumeration",
+            "fault injection at every density-evaluation index x every fault kind of sampled base runs, phase labels from a fault-free dry run of the same seed",
+            "Per base run (all six presets) every evaluation index x {recoverable error, unrecoverable error, NaN, +inf, -inf value, NaN/inf gradient component, energy jump} is injected in turn, plus seeded fault pairs and a batch of longer runs with sampled positions. Oracle per API call: never a panic; unrecoverable => that call returns Err; recoverable-class fault at a trajectory leapfrog => Ok + divergence reported (or MCLMC retry) and the returned draw is the start or an earlier fault-free state with finite position and logp; at a search trial => Ok; afterwards all draws stay valid and scales/step sizes finite and positive.",
+            "Base runs are sampled, positions enumerated (strided beyond 500 evaluations). For fault pairs only the first fault's phase is judged exactly.",
+            "DESIGN.md §5 C05, Appendix D"),
     "C06": (ENGINE_A, "exploration",
             "seeded simulation of single-chain histories (swarm configurations, density fault injection) with history oracle",
             "Seeded search over configurations (all six presets, num_tune 0..2000 incl. every value 0..60, window fractions, step-size methods, jitter) and over acceptance/divergence histories produced by a fault-injecting density stub; the oracle reads the recorded history of each run (Progress, statistics). Evidence, not proof: a clean batch means no explored history breaks the boundary.",
